@@ -83,7 +83,11 @@ def _walk_lark_tree(op, *, data_def=None) -> data_algebra.expr_rep.Term:
             if r_op.type == "DEC_NUMBER":
                 return data_algebra.expr_rep.Value(int(r_op))
             if r_op.type == "FLOAT_NUMBER":
-                return data_algebra.expr_rep.Value(float(r_op))
+                float_value = float(r_op)
+                if float_value in (float("inf"), float("-inf")):
+                    # 1e400 would become the constant inf, which has no literal form to print back
+                    raise ValueError("float literal out of range: " + str(r_op))
+                return data_algebra.expr_rep.Value(float_value)
             if r_op.type == "STRING":
                 return data_algebra.expr_rep.Value(
                     ast.literal_eval(str(r_op))
